@@ -118,6 +118,8 @@ where
                             }
                             Err((mut event, err)) => {
                                 event.ingest = ProcessorStatus::Failed(err);
+                                // Never prune on behalf of an operation which was not ingested.
+                                event.disarm_log_prune();
                                 event
                             }
                         })
